@@ -108,7 +108,7 @@ Section DictLaw.
     | _ => []
     end.
   Definition do_offered (before : amap) (o : dop) : list (Z * Z) :=
-    match o with DOp o => d_offered before o | DAssign _ ps => update_all ps [] end.
+    match o with DOp o => d_offered before o | DAssign _ ps => update_all ps [] | DUpdateKw ps kw => ps ++ kw end.
 
   Definition law_dict_step (before : amap) (o : dop) (ob : dobs) : list Z :=
     let same := mapeq (do_after ob) before && Nat.eqb (do_nev ob) 0 in
